@@ -163,6 +163,18 @@ def main(argv):
         traces.append({'id': i + 1, 'events': [{
             'args': args, 'line': syms(line),
             'split_back': [syms(x) for x in back]}]})
+    # the MSBuild backend's own consumer of the quoting module: the command
+    # line it writes into an Exec task for the same argument lists
+    from bfg9000.backends.msbuild import syntax as msyntax
+    n1 = len(traces)
+    for i, args in enumerate(cases):
+        real = [concrete(a) for a in args]
+        try:
+            line = ' '.join(msyntax.textify_each(real, quoted=True))
+        except Exception as e:
+            line = 'EXC ' + type(e).__name__
+        traces.append({'id': n1 + i + 1, 'events': [{
+            'args': args, 'line': syms(line), 'split_back': args}]})
     rej, st = validate_traces('WinArgv_Trace', wcfg('trace', 1, 1), traces,
                               chunk=20000, defs='AlphaDef == {"a"}')
     ck.states += st['distinct']
@@ -171,7 +183,8 @@ def main(argv):
     for tid, info in sorted(rej.items()):
         ev = traces[tid - 1]['events'][0]
         feats = sorted({c for a in ev['args'] for c in a if c != 'a'})
-        ck.report('C20:%s:%s' % (info[0], '+'.join(feats)),
+        ck.report('C20:%s:%s%s' % (info[0], '+'.join(feats),
+                                   ':msbuild-exec' if tid > n1 else ''),
                   '%s: args %r -> line %r' % (
                       info[0], [concrete(a) for a in ev['args']],
                       concrete(ev['line'])), ev)
